@@ -61,6 +61,28 @@ def parse_signature(
     return signature
 
 
+def validate_predicate_usage(
+    untyped_predicate: List[str], domain_predicates: Dict[str, Predicate]
+) -> None:
+    """Validates that a literal refers to a declared predicate and has the declared number of arguments.
+
+    :param untyped_predicate: the literal as it appears in the action, i.e. [name, arg1, ..., argn].
+    :param domain_predicates: the predicates that are defined in the domain.
+    """
+    if isinstance(untyped_predicate, str) or len(untyped_predicate) == 0:
+        raise SyntaxError(f"Expected a literal but received - {untyped_predicate}")
+
+    predicate_name = untyped_predicate[0]
+    if not isinstance(predicate_name, str) or predicate_name not in domain_predicates:
+        raise SyntaxError(f"Unknown predicate used in the literal - {untyped_predicate}")
+
+    if len(untyped_predicate[1:]) != len(domain_predicates[predicate_name].signature):
+        raise SyntaxError(
+            f"The literal {untyped_predicate} has a wrong number of arguments, "
+            f"expected {len(domain_predicates[predicate_name].signature)}."
+        )
+
+
 def parse_untyped_predicate(
     untyped_predicate: List[str],
     action_signature: SignatureType,
